@@ -120,6 +120,13 @@ pub fn exec(tok: &[&str]) -> String {
             let z = vh::sampler_z(fbits(tok[1]), fbits(tok[2]), fbits(tok[3]), &mut rng);
             format!("{z} {}", rng.pos)
         }
+        // the leaf arm of ffsampling: two sampler_z calls on the same stream, centres and width as given
+        "ffs_leaf" => {
+            let mut rng = StreamRng::new(unhex(tok[5]));
+            rng.panic_on_exhaust = true;
+            let (z0, z1) = vh::ffsampling_leaf(tok[1].parse().unwrap(), fbits(tok[2]), fbits(tok[3]), fbits(tok[4]), &mut rng);
+            format!("{} {} {}", z0 as i64, z1 as i64, rng.pos)
+        }
         // ---- Z_p arithmetic and Babai reduction (C17) -------------------------------------------------
         "u32f_new" => vh::u32f_new(tok[1].parse().unwrap()).to_string(),
         "u32f_balanced" => vh::u32f_balanced(tok[1].parse().unwrap()).to_string(),
